@@ -382,6 +382,15 @@ def model_probes(ctx, rng):
                     viol("round-trip", "anisometrize(isometrize(x)) != x", dict(case, pos=hexl(pos)))
                 if not agree(iso.isometrize(ip), ip, tol=0.0):
                     viol("iso-identity", "isotropic model does not leave positions unchanged", dict(case, pos=hexl(pos)))
+                # a list of length scales is reproduced by len_scale_vec (truncated to dim, padded with its last value)
+                nl = int(rng.integers(2, dim + 3))
+                lsl = 10.0 ** rng.uniform(-1, 1, size=nl)
+                if dim >= 2:
+                    want = np.concatenate((lsl[:dim], np.full(max(dim - nl, 0), lsl[:dim][-1])))
+                    got = type(m)(dim=dim, len_scale=list(lsl)).len_scale_vec
+                    if not agree(got, want, want, tol=1e-15):
+                        viol("len-scale-list", "len_scale_vec does not reproduce the given list of length scales",
+                             dict(model=name, dim=dim, len_scale=hexl(lsl)))
 
 
 def pipeline_probes(ctx, rng):
@@ -511,7 +520,7 @@ def run(ctx):
         "theorems are over exact reals (Coq Reals: cos, sin, sqrt); IEEE rounding, numpy matmul/dot, numpy cos/sin are compared, not verified",
     ]
     ctx.not_proved = [
-        "determinant +1 is proved with explicit determinants for dim <= 3 only (dims >= 4: orthogonality proved, det probed numerically)",
+        "determinant +1 is proved with explicit determinants for dims 1-4 only (dims >= 5: orthogonality proved, det probed numerically)",
         "pipeline statement (SRF/Krige/CondSRF results depend on positions only through isometrize) is probed on the "
         "implementation, and proved only in the form: the isotropic twin's isometrize is the identity",
         "lat-lon branch of isometrize/anisometrize belongs to C13",
